@@ -164,6 +164,8 @@ BIT_STRING_encode_oer(const asn_TYPE_descriptor_t *td,
                 erval.encoded += sizeof(zeros);
             }
             if(ret < 0) ASN__ENCODE_FAILED;
+            trailing_zeros -= (trailing_zeros < sizeof(zeros))
+                                  ? trailing_zeros : sizeof(zeros);
         }
     }
 
